@@ -54,14 +54,31 @@ def check_storage(prop, tier, seed):
         binp = build_harness(work)
         cov = dict(states=0, transitions=0, traces_validated_against_impl=0, samples=[], evaluations=0,
                    distinct_nontrivial=0, mc_runs=[], replay=[], exhaustive=False)
-        base = dict(MaxPos=5, KeyPos={2, 4}, Vals={"a", "b"}, MaxSteps=3 if quick else 4, MaxIters=1, GenHist=False)
+        base = dict(MaxPos=5, KeyPos={2, 4}, Vals={"a", "b"}, MaxSteps=3 if quick else 4, MaxIters=1, GenHist=False, WholeIters=False)
         r = mc(work, "Storage.tla", base, ["AllOrNothing", "IterSorted", "TypeOK"])
         cov["states"] += r["distinct"]; cov["transitions"] += r["states"]
         cov["mc_runs"].append(dict(module="Storage.tla", config="2 keys, 2 values, all sequences of %d operations (batches of 1-2 ops, get, del, iterators fwd/bwd/limited, compare-and-delete)" % base["MaxSteps"],
                                    distinct_states=r["distinct"], states_generated=r["states"]))
         log("MC Storage.tla: %d distinct states" % r["distinct"])
         n = 1200 if quick else 20000
-        behs = gen(work, "Storage.tla", dict(MaxPos=9, KeyPos={2, 4, 6, 8}, Vals={"a", "b"}, MaxSteps=8 if quick else 10, MaxIters=3, GenHist=False), seed, n, 14)
+        behs = gen(work, "Storage.tla", dict(MaxPos=9, KeyPos={2, 4, 6, 8}, Vals={"a", "b"}, MaxSteps=8 if quick else 10, MaxIters=3, GenHist=False, WholeIters=False), seed, n, 14)
+        # compare-and-delete of an element that was rewritten / deleted / left alone after the iterator reached it: random sequences
+        # almost never get there (1 in 500), so these behaviours of Storage.tla are written out; TraceStorage.tla re-executes them
+        # like every other sequence
+        A = "<absent>"
+        def put(v): return {"e": "SCommit", "ops": [{"k": 4, "o": "put", "v": v, "old": A}], "res": "ok"}
+        def dele(): return {"e": "SCommit", "ops": [{"k": 4, "o": "del", "v": A, "old": A}], "res": "ok"}
+        def it(s_, e_): return {"e": "SIterOpen", "id": 1, "s": s_, "en": e_, "limit": 0}
+        nxt = {"e": "SIterNext", "id": 1, "k": 4, "v": "a"}
+        def dc(res): return {"e": "SDelCur", "id": 1, "k": 4, "res": res}
+        def get(v): return {"e": "SGet", "k": 4, "v": v}
+        scripted = []
+        for s_, e_ in ((0, 6), (6, 0)):
+            scripted.append([put("a"), it(s_, e_), nxt, put("b"), dc("cas"), get("b")])
+            scripted.append([put("a"), it(s_, e_), nxt, dele(), dc("cas"), get(A)])
+            scripted.append([put("a"), it(s_, e_), nxt, dc("ok"), get(A)])
+            scripted.append([put("a"), it(s_, e_), nxt, put("b"), dc("cas"), put("a"), get("a")])
+        behs = behs + [json.dumps({"steps": st}) for st in scripted]
         engines = "memkv,badger,tikv,metrics,metrics-badger,metrics-tikv"
         rep, traces, _ = run_driver(work, binp, "storerun", behs, engines, 16)
         cov["evaluations"] = rep.get("behaviours", 0) * 6
@@ -81,7 +98,15 @@ def check_storage(prop, tier, seed):
         traces.append(tr)
         cov["replay"].append(dict(what="iterators over 700+ keys with a batch committed after they were opened, forward and backward, on every adapter",
                                   runs=json.load(open(rp)).get("behaviours", 0)))
-        ntr, v = validate_all(work, traces, T_MON[prop] + ["M_IterSnapshotBulk"], module="TraceStorage.tla", chunks=8)
+        # "entirely or not at all" at a size beyond what an engine takes in one transaction
+        d = work.sub("bigbatch")
+        tr = os.path.join(d, "bigbatch.ndjson"); rp = os.path.join(d, "bigbatch.json")
+        rc, out = run([binp, "bigbatch", "-out", tr, "-report", rp, "-engine", engines], env=GOENV, timeout=600)
+        if rc != 0 or not os.path.exists(rp):
+            raise Undecided("bigbatch failed (rc=%s): %s" % (rc, (out or "")[-800:]))
+        traces.append(tr)
+        cov["replay"].append(dict(what="one batch of 120000 puts, alone and with a failing condition, on every adapter", runs=json.load(open(rp)).get("behaviours", 0)))
+        ntr, v = validate_all(work, traces, T_MON[prop] + ["M_IterSnapshotBulk", "M_BigBatchAllOrNothing"], module="TraceStorage.tla", chunks=8)
         cov["traces_validated_against_impl"] = ntr
         if not v:
             # parallel conditional batches on the bare adapters (StorageRace.tla)
